@@ -210,6 +210,7 @@ struct Engine
         begin("construct_from_reference", fmt("e%d,form=%s,v[%d],arena=%d", d, names[form], idx, arena));
         Vec& vec = *v;
         const uint64_t moves_before = registry().move_constructed, copies_before = registry().copy_constructed;
+        const uint64_t ctm_before = CopyTrivMove8::move_constructions;
         const auto ui = static_cast<size_t>(idx);
         if constexpr (Cfg::ALL_COPYABLE)
         {
@@ -244,6 +245,10 @@ struct Engine
         if (form >= 4)
         {
             // constructed from an rvalue mutable reference: the values are moved out of the vector, exactly once
+            // a type with a trivial copy constructor but its own move constructor is not trivially copyable: moved, not memcpy'd
+            const size_t ctm = objects_of_type(Cfg::fields(), m.e[ui].f, "Ctm8");
+            if (CopyTrivMove8::move_constructions - ctm_before != ctm)
+                viol("C12,C06", "relocation_bypasses_move_constructor", fmt("%s ran the move constructor of %" PRIu64 " objects of a type with trivial copy / user-provided move, the source holds %zu", names[form], CopyTrivMove8::move_constructions - ctm_before, ctm));
             m.e[ui] = moved_from(m.e[ui]);
             vec_moved[ui] = true;
             if (Cfg::HAS_TRACKED && registry().move_constructed - moves_before != objs)
